@@ -17,7 +17,8 @@ KERNELS = ['Gen/SchemaNames.v: schema_keeps_right', 'Gen/SchemaNames.v: row_has_
            'Gen/SchemaNames.v: fmt_add fmt_mul fmt_neg fmt_call lit_null',
            'Gen/SchemaNames.v: name_count name_sum name_min name_max count_star_arg']
 SHARD = 150
-RULE = ('programs of 1-3 base tables (0-4 rows over columns k,v,w,x,..., ints and None, incl. duplicate column '
+RULE = ('programs of 1-3 base tables (plain tuples, or Row / namedtuple objects with their own field names renamed by a '
+        'name list / StructType / DDL string, local or RDD; 0-4 rows over columns k,v,w,x,..., ints and None, incl. duplicate column '
         'names) followed by op chains of length <= 4 drawn from 17 operation kinds with parameters taken from '
         'the live column list (plus some absent/ambiguous names); exhaustive part: every chain of length <= 2 over '
         'a menu of 96 concrete operations (14 of them refer to a column in another letter case than the schema) on two fixed tables (thorough tier: all, quick tier: all of length 1 '
@@ -42,9 +43,10 @@ TRUSTED = ['translator/kernels/c15.py (join field-group tables, pivot / expressi
 # ----------------------------------------------------------------------------------------------
 # instruction encoding (mirrors coq/Run/C15_run.v)
 CREATE, RANGE, SELECT, WITHCOL, DROP, RENAME, TODF, JOIN, CROSS, UNION, UNIONBN, AGG, SORT, LIMIT, DISTINCT, SAMPLE, \
-    REPART = range(17)
+    REPART, CREATEROWS = range(18)
 OPNAMES = ['createDataFrame', 'range', 'select', 'withColumn', 'drop', 'withColumnRenamed', 'toDF', 'join',
-           'crossJoin', 'union', 'unionByName', 'agg', 'sort', 'limit', 'distinct', 'sample', 'repartition']
+           'crossJoin', 'union', 'unionByName', 'agg', 'sort', 'limit', 'distinct', 'sample', 'repartition',
+           'createDataFrame(rows)']
 HOWS = ['inner', 'left', 'right', 'full', 'leftsemi', 'leftanti']
 AGGFNS = ['count', 'sum', 'min', 'max']
 
@@ -128,6 +130,37 @@ class ScriptedSampler:
         return k if self.wr else min(1, k)
 
 
+def create_rows(ins, spark, mods):
+    """createDataFrame over rows that carry their own field names.  flavor % 4: 0 Row(**kw) (own names are
+    sorted, as Row sorts them), 1 Row(*names)(*values), 2 collections.namedtuple; +4: handed over as an RDD;
+    +8: the name list is a tuple; +16: the StructType is written as a DDL string."""
+    import collections
+
+    from pysparkling import Row
+    Context, SparkSession, F, StructType, StructField, LongType = mods
+    _, by_struct, own, names, data, flavor = ins
+    kind = flavor % 4
+    if kind == 0:
+        rows = [Row(**dict(zip(own, r))) for r in data]
+    elif kind == 1:
+        cls = Row(*own)
+        rows = [cls(*r) for r in data]
+    else:
+        nt = collections.namedtuple('NT', list(own))
+        rows = [nt(*r) for r in data]
+    src = spark.sparkContext.parallelize(rows, 2) if flavor & 4 else rows
+    if by_struct:
+        if flavor & 16:
+            schema = ', '.join(f'{n}: long' for n in names)
+        else:
+            schema = StructType([StructField(n, LongType(), True) for n in names])
+    elif not names:
+        schema = None
+    else:
+        schema = tuple(names) if flavor & 8 else list(names)
+    return spark.createDataFrame(src, schema)
+
+
 def exec_step(ins, dfs, spark, mods):
     """Run one instruction on the real implementation; returns the new DataFrame."""
     Context, SparkSession, F, StructType, StructField, LongType = mods
@@ -141,6 +174,8 @@ def exec_step(ins, dfs, spark, mods):
     if op == RANGE:
         _, a, b, s, nparts = ins
         return spark.range(a, b, s, numPartitions=nparts)
+    if op == CREATEROWS:
+        return create_rows(ins, spark, mods)
     df = dfs[ins[1]]
     if op == SELECT:
         return df.select(*['*' if c == STAR else (c[1][1] if c[1][0] == 0 and ins[1] % 2 == 0 else bexpr(c[1], F))
@@ -204,7 +239,7 @@ def flags(ins, fl):
     """(order determined, content determined) of the frame an instruction builds -- mirrors the
     bookkeeping fields ford / fval of coq/Model/Schema.v; returns None when the model declines."""
     op = ins[0]
-    if op in (CREATE, RANGE):
+    if op in (CREATE, RANGE, CREATEROWS):
         return (True, True)
     o, v = fl[ins[1]]
     if op in (SELECT, WITHCOL, DROP, RENAME, TODF, SORT):
@@ -236,13 +271,18 @@ def _fkey(fields):
     return [[ord(c) for c in f] for f in fields]
 
 
-def observe(df, ordered, valued):
+def observe(df, ordered, valued, like=None):
     try:
         cols = list(df.columns)
     except RecursionError:
         cols = Err('RecursionError')
     try:
-        names = list(df.schema.names)
+        schema = df.schema
+        views = ([f.name for f in schema.fields], list(schema.names), list(schema.fieldNames()))
+        names = views[1] if views[0] == views[1] == views[2] and not isinstance(cols, Err) and cols == views[0] \
+            else ('schema-views-disagree', cols if not isinstance(cols, Err) else [], views[0], views[1], views[2])
+        if like is not None and isinstance(names, list) and schema != like:
+            names = ('schema-not-equal', repr(schema), repr(like))
     except RecursionError:
         names = Err('RecursionError')
     rows = df.collect()
@@ -267,6 +307,22 @@ def observe(df, ordered, valued):
     return (cols, names, out, cnt, same)
 
 
+def reference_schema(ins, df, dfs, spark, mods):
+    """The StructType the new frame's schema must be EQUAL to (StructType.__eq__ compares fields, the
+    redundant .names list and the conversion flags), or None when the property does not determine it:
+    a frame built by createDataFrame equals the frame built from plain tuples under the same column
+    names; operations that hand the schema on unchanged return the schema of their (first) operand."""
+    StructType, StructField, LongType = mods[3], mods[4], mods[5]
+    op = ins[0]
+    if op in (CREATE, CREATEROWS):
+        cols = [f.name for f in df._jdf.bound_schema.fields]
+        ref = spark.createDataFrame([], StructType([StructField(n, LongType(), True) for n in cols]))
+        return ref.schema
+    if op in (SORT, LIMIT, DISTINCT, SAMPLE, REPART, UNION, UNIONBN):
+        return dfs[ins[1]].schema
+    return None
+
+
 STATUS = {}
 
 
@@ -287,7 +343,7 @@ def impl(case):
             break
         try:
             df = exec_step(ins, dfs, spark, mods)
-            o = observe(df, *f)
+            o = observe(df, *f, like=reference_schema(ins, df, dfs, spark, mods))
         except RecursionError:
             status = Err('RecursionError')
             break
@@ -315,6 +371,12 @@ def oracle(case, result):
         cols, names, rows, cnt, same = o
         if isinstance(cols, Err) or isinstance(names, Err):
             return (f'{site}:schema-unreadable', f'step {i}: df.columns / df.schema raised {cols!r} {names!r}')
+        if isinstance(names, tuple):
+            if names[0] == 'schema-not-equal':
+                return (f'{site}:schema-not-equal', f'step {i}: df.schema {names[1]} is not equal to the expected '
+                        f'StructType {names[2]}')
+            return (f'{site}:schema-views-disagree', f'step {i}: columns {names[1]}, [f.name for f in schema.fields] '
+                    f'{names[2]}, schema.names {names[3]}, schema.fieldNames() {names[4]}')
         if cols != names:
             return (f'{site}:columns-vs-schema-names', f'step {i}: columns {cols} schema.names {names}')
         for fields, v in rows:
@@ -336,11 +398,11 @@ def oracle(case, result):
 def nontrivial(case, result):
     if isinstance(result, Err):
         return False
-    return any(case[i][0] not in (CREATE, RANGE) for i in range(len(result[0])))
+    return any(case[i][0] not in (CREATE, RANGE, CREATEROWS) for i in range(len(result[0])))
 
 
 def kind(case):
-    ops = [OPNAMES[i[0]] for i in case if i[0] not in (CREATE, RANGE)]
+    ops = [OPNAMES[i[0]] for i in case if i[0] not in (CREATE, RANGE, CREATEROWS)]
     return f'len{len(ops)}:' + (ops[-1] if ops else 'create')
 
 
@@ -349,6 +411,9 @@ def shrink_candidates(case):
     if len(case) > 1:
         yield case[:-1]
     for i, ins in enumerate(case):
+        if ins[0] == CREATEROWS and len(ins[4]) > 0:
+            for j in range(len(ins[4])):
+                yield case[:i] + [ins[:4] + (ins[4][:j] + ins[4][j + 1:],) + ins[5:]] + case[i + 1:]
         if ins[0] == CREATE and len(ins[3]) > 0:
             for j in range(len(ins[3])):
                 yield case[:i] + [(ins[0], ins[1], ins[2], ins[3][:j] + ins[3][j + 1:])] + case[i + 1:]
@@ -358,6 +423,16 @@ def shrink_candidates(case):
 # generators
 T_A = (CREATE, False, ['k', 'v'], [[1, 10], [2, 20], [2, None]])
 T_B = (CREATE, True, ['k', 'v'], [[2, 5], [3, 7], [None, 1]])
+
+
+# the table A built from rows that carry OTHER names than the columns asked for
+T_ROWS = (
+    (CREATEROWS, False, ['a', 'b'], ['k', 'v'], [[1, 10], [2, 20], [2, None]], 0),      # Row(a=, b=), names list
+     (CREATEROWS, False, ['x', 'y'], ['k', 'v'], [[1, 10], [2, 20], [2, None]], 2 + 4 + 8),  # namedtuple RDD, tuple of names
+     (CREATEROWS, True, ['v', 'k'], ['k', 'v'], [[10, 1], [20, 2], [None, 2]], 1),        # Row class, struct permuted
+     (CREATEROWS, True, ['a', 'b'], ['k', 'v'], [[1, 10], [2, 20], [2, None]], 2 + 16),   # namedtuple, DDL string
+     (CREATEROWS, True, ['k', 'v', 'z'], ['k', 'v'], [[1, 10, 0], [2, 20, 0], [2, None, 0]], 0 + 4),  # Row(k=,v=,z=) RDD, struct subset
+)
 
 
 def menu(s, others):
@@ -456,6 +531,9 @@ def exhaustive(rng, tier):
     for op1 in m1:
         for op2 in menu(2, [1, 0]):
             pairs.append(base + [op1, op2])
+    for tr in T_ROWS:
+        for op1 in menu(0, [1]):
+            cases.append([tr, T_B, op1])
     pairs = [p for p in pairs if ok_for_model(p)]
     if tier == 'quick':
         pairs = rng.sample(pairs, 1700)
@@ -466,7 +544,57 @@ NAMES = ['k', 'v', 'w', 'x']
 VALS = [None, 0, 1, 2, 3, -1, 10]
 
 
+def rand_rows_table(rng):
+    """createDataFrame over Row / namedtuple objects with a renaming schema."""
+    ncol = rng.choice([1, 2, 2, 2, 3])
+    kind = rng.randrange(3)
+    own = rng.sample(['a', 'b', 'c', 'k', 'v'], ncol)
+    if kind == 0:
+        own = sorted(own)
+    by_struct = rng.random() < 0.4
+    new = rng.sample(NAMES + ['y', 'z'], ncol)
+    r = rng.random()
+    if by_struct:
+        if r < 0.3:
+            names = list(own)
+        elif r < 0.6:
+            names = rng.sample(own, ncol)                     # a permutation: matched by name
+        elif r < 0.8:
+            names = new if rng.random() < 0.7 else [rng.choice(own)] + new[1:]   # names the rows do not have
+        elif r < 0.9:
+            names = own[:-1] if ncol > 1 else own + own       # fewer / repeated names
+        else:
+            names = own + [rng.choice(own)]
+    else:
+        if r < 0.15:
+            names = []                                        # schema=None
+        elif r < 0.65:
+            names = new
+        elif r < 0.8:
+            names = new[:-1]                                  # only the first columns are renamed
+        elif r < 0.9:
+            names = [new[0]] * ncol                           # duplicate new names
+        elif r < 0.95:
+            names = list(own)
+        else:
+            names = new + ['zz']                              # too many names: IndexError
+    nrow = rng.choice([0, 1, 2, 3, 3, 4]) if by_struct else rng.choice([1, 2, 3, 3, 4])
+    data = [[rng.choice(VALS) for _ in range(ncol)] for _ in range(nrow)]
+    if not by_struct and rng.random() < 0.9:
+        for j in range(ncol):
+            if all(d[j] is None for d in data):
+                data[0][j] = rng.choice(VALS[1:])
+    flavor = kind + (4 if rng.random() < 0.35 else 0)
+    if by_struct:
+        flavor += 16 if rng.random() < 0.25 else 0
+    else:
+        flavor += 8 if rng.random() < 0.3 else 0
+    return (CREATEROWS, by_struct, own, names, data, flavor)
+
+
 def rand_table(rng):
+    if rng.random() < 0.22:
+        return rand_rows_table(rng)
     if rng.random() < 0.12:
         a = rng.choice([0, 1, -2])
         return (RANGE, a, a + rng.choice([1, 2, 3, 5]), rng.choice([1, 2]), rng.choice([1, 2, 3]))
@@ -650,7 +778,8 @@ def random_program(rng, mods, max_ops=4):
         return True
 
     for _ in range(rng.choice([1, 2, 2, 3])):
-        if not push(rand_table(rng)):
+        t = rand_table(rng)
+        if not push(t):
             return prog
     n_ops = rng.choice([1, 2, 3, 3, 4, 4, 4]) if max_ops >= 4 else max_ops
     cur = len(dfs) - 1
@@ -728,6 +857,8 @@ def extra_checks(rng, tier, workdir):
     for it in range(n):
         spark = SparkSession(Context())
         t = rand_table(rng)
+        if t[0] == CREATEROWS:
+            t = (CREATE, True, list(t[3]) or ['k'], [])
         if t[0] == CREATE and len(t[3]) < 4:
             # enough rows for two independent draws to differ
             w = len(t[3][0]) if t[3] else len(t[2])
